@@ -37,10 +37,10 @@ func (t *Type) String() string {
 	return t.Name + "(" + strings.Join(parts, ", ") + ")"
 }
 
-func tSimple(n string) *Type        { return &Type{Name: n} }
-func tArray(e *Type) *Type          { return &Type{Name: "Array", Args: []*Type{e}} }
-func tTuple(es ...*Type) *Type      { return &Type{Name: "Tuple", Args: es} }
-func tMap(k, v *Type) *Type         { return &Type{Name: "Map", Args: []*Type{k, v}} }
+func tSimple(n string) *Type   { return &Type{Name: n} }
+func tArray(e *Type) *Type     { return &Type{Name: "Array", Args: []*Type{e}} }
+func tTuple(es ...*Type) *Type { return &Type{Name: "Tuple", Args: es} }
+func tMap(k, v *Type) *Type    { return &Type{Name: "Map", Args: []*Type{k, v}} }
 func tNullable(e *Type) *Type {
 	if e == nil {
 		return nil
